@@ -11,7 +11,7 @@ from vlib.common import Report, Violation, HarnessError, Acc, pmap, merge
 PID = 'C13'
 D0 = date(2015, 1, 1)
 NDAYS = 1461
-ORDER = ['U9', 'U11', 'U13', 'U15', 'U17', 'U20', 'SEN'] + ['V%02d' % a for a in range(35, 130, 5)]
+ORDER = ['U9', 'U11', 'U13', 'U15', 'U17', 'U20', 'SEN'] + ['V%02d' % a for a in range(35, 200, 5)]
 RANK = {g: i for i, g in enumerate(ORDER)}
 
 
@@ -79,10 +79,22 @@ OPTS = [(True, False), (True, True), (False, False), (False, True)]
 def births_for(match, tier):
     """birth dates to pair with this meeting date, ascending"""
     start = date(match.year - 110, match.month, match.day if (match.month, match.day) != (2, 29) else 28)
+    # beyond 110 years (placeholder birth dates such as 1900-01-01 or 1880-06-15 do occur): around the anniversary of the meeting day and 31 Aug / 1 Sep
+    old = set()
+    for y in range(match.year - 160, match.year - 109):
+        for (m, d) in ((match.month, match.day), (8, 31), (1, 1)):
+            try:
+                a = date(y, m, d)
+            except ValueError:
+                a = date(y, m, 28)
+            for k in (-1, 0, 1):
+                b = a + timedelta(days=k)
+                if b < start:
+                    old.add(b)
     if tier == 'thorough':
         n = (match - start).days
-        return [start + timedelta(days=i) for i in range(n + 1)]
-    S = set()
+        return sorted(old) + [start + timedelta(days=i) for i in range(n + 1)]
+    S = set(old)
     anchors = [(match.month, match.day), (8, 31), (9, 1), (12, 31), (1, 1), (2, 28), (3, 1)]
     for y in range(match.year - 111, match.year + 1):
         for (m, d) in anchors:
